@@ -608,7 +608,16 @@ pub fn run_watched<R: Send + 'static>(
                         break;
                     }
                     *slots[t].lock().unwrap() = (i + 1, std::time::Instant::now());
-                    let r = f(i);
+                    // a panic here is outside every guarded() call: the harness itself failed
+                    let r = match std::panic::catch_unwind(std::panic::AssertUnwindSafe(|| f(i))) {
+                        Ok(r) => r,
+                        Err(_) => {
+                            let any = LAST_PANIC_ANY.lock().ok().and_then(|mut g| g.take());
+                            let (site, msg) = any.unwrap_or(("?".into(), "?".into()));
+                            println!("MACHINERY-ERROR harness worker panicked in job {} at {}: {}", i, site, msg);
+                            std::process::exit(2);
+                        }
+                    };
                     *slots[t].lock().unwrap() = (0, std::time::Instant::now());
                     results.lock().unwrap()[i] = Some(r);
                 }
